@@ -73,7 +73,9 @@ pub struct RunOut { pub stdout: Vec<u8>, pub status: Option<i32>, pub signal: Op
 pub fn run(bin: &Path, args: &[i64], timeout_ms: u64) -> RunOut {
     use std::io::Read;
     use std::os::unix::process::ExitStatusExt;
-    let mut child = match Command::new(bin).args(args.iter().map(|a| a.to_string())).stdout(std::process::Stdio::piped()).stderr(std::process::Stdio::null()).spawn() {
+    let mut child = match Command::new(bin).args(args.iter().map(|a| a.to_string()))
+        // the generated code assumes a zero-filled heap: make the C allocator hand out non-zero memory unless the driver zeroes it
+        .env("MALLOC_PERTURB_", "165").stdout(std::process::Stdio::piped()).stderr(std::process::Stdio::null()).spawn() {
         Ok(c) => c,
         Err(_) => return RunOut { stdout: vec![], status: None, signal: None, timed_out: false },
     };
